@@ -106,8 +106,17 @@ static void init_case(int prior, int f, unsigned ch, uint32_t rate, uint32_t fra
 }
 static void gen_init(int thorough)
 {
-	static const unsigned chs[] = { 1, 2, 6, 255 };
+	static const unsigned chs[] = { 1, 2, 6, 255, 3 };
 	static const uint32_t rates[] = { 1, 8000, 44100, 192000, 1u << 27, (1u << 28) + 1, 0x3fffffffu };
+	/* the largest files that fit: the RIFF chunk size (36 or, with a fact chunk, 50 bytes more than the sample data) in its
+	 * last few values below 2^32 */
+	for (int f = 0; f < 3; f++)
+		for (int c = 0; c < 5; c++) {
+			unsigned ba = chs[c] * (f == 0 ? 2 : 4);
+			uint32_t top = (0xffffffffu - (f == 2 ? 50 : 36)) / ba;
+			for (uint32_t k = 0; k < 6 && k <= top; k++)
+				init_case(k % 3, f, chs[c], k & 1 ? 8000 : 44100, top - k);
+		}
 	for (int prior = 0; prior < 3; prior++)
 		for (int f = 0; f < 3; f++)
 			for (int c = 0; c < 4; c++)
@@ -285,11 +294,26 @@ static void gen_decode(long seed, int nrandom)
 	/* well-known RIFF chunk ids where the decoder expects "data" (and, for the headers that have one, "fact"), each followed
 	 * by a payload and a real data chunk: whatever is accepted must re-encode to the bytes that were consumed */
 	{
-		static const char *ids[] = { "LIST", "list", "cue ", "smpl", "bext", "JUNK", "junk", "PEAK", "id3 ", "fact", "data", "fmt ", "RIFF", "WAVE", "PAD ", "INFO" };
+		static const char *known[] = { "LIST", "list", "cue ", "smpl", "bext", "JUNK", "junk", "PEAK", "id3 ", "fact", "data", "fmt ", "RIFF", "WAVE", "PAD ", "INFO" };
+		static const char *own[] = { "fact", "data", "fmt ", "riff", "wave" };
+		static char ids[16 + 5 * 17][5];
 		static const unsigned plens[] = { 0, 1, 4, 26, 27 };
+		unsigned nids = 0;
+		for (unsigned i = 0; i < 16; i++) strcpy(ids[nids++], known[i]);
+		/* the ids the codec itself looks for, in every spelling that differs only in letter case, and with one bit flipped */
+		for (unsigned w = 0; w < 5; w++) {
+			for (unsigned v = 1; v < 16; v++) {
+				strcpy(ids[nids], own[w]);
+				for (int b = 0; b < 4; b++) if ((v >> b & 1) && ids[nids][b] >= 'a' && ids[nids][b] <= 'z') ids[nids][b] -= 32;
+				if (strcmp(ids[nids], own[w])) nids++;
+			}
+			strcpy(ids[nids], own[w]); ids[nids++][1] ^= 0x01;
+			strcpy(ids[nids], own[w]); ids[nids++][3] ^= 0x80;
+		}
 		for (int kind = 0; kind < 7; kind++)
-			for (unsigned i = 0; i < sizeof(ids) / sizeof(ids[0]); i++)
+			for (unsigned i = 0; i < nids; i++)
 				for (unsigned pl = 0; pl < 5; pl++) {
+					if (i >= 16 && pl != 0 && pl != 2) continue;
 					int n = base_header(kind, buf);
 					int has_fact = (kind == 2 || kind == 6);
 					for (int where = 0; where <= has_fact; where++) {
